@@ -7,6 +7,7 @@ import functools
 import inspect
 import json
 from contextlib import contextmanager
+from contextvars import ContextVar
 from pathlib import Path
 from typing import (
     Annotated,
@@ -387,6 +388,22 @@ def Resource(
     return _Resource(factory, cache)
 
 
+class _ResolutionScope:
+    """State of one dependency-graph resolution (one step invocation)."""
+
+    __slots__ = ("resolving", "cache")
+
+    def __init__(self) -> None:
+        self.resolving: list[str] = []  # resources being resolved, in order
+        self.cache: dict[str, Any] = {}  # values produced in this resolution
+
+
+# manager id -> scope of the resolution running in the current context
+_resolution_scopes: ContextVar[dict[int, _ResolutionScope]] = ContextVar(
+    "resource_resolution_scopes", default={}
+)
+
+
 class ResourceManager:
     """Manage resource lifecycles and caching across workflow steps.
 
@@ -398,27 +415,36 @@ class ResourceManager:
 
     def __init__(self) -> None:
         self.resources: dict[str, Any] = {}
-        self._resolving: list[str] = []  # Track resources being resolved in order
-        self._resolution_cache: dict[str, Any] = {}
-        self._resolution_depth = 0
+
+    def _current_scope(self) -> _ResolutionScope | None:
+        return _resolution_scopes.get().get(id(self))
 
     @contextmanager
     def resolution_scope(self) -> Iterator[None]:
-        """Scope non-cached resolution values to a single dependency graph."""
-        self._resolution_depth += 1
+        """Scope non-cached resolution values to a single dependency graph.
+
+        The scope is kept in a ContextVar, so concurrent step invocations
+        (separate asyncio tasks) each get their own cycle-detection stack and
+        their own non-cached values.
+        """
+        if self._current_scope() is not None:
+            # nested: stay inside the enclosing dependency graph
+            yield
+            return
+        token = _resolution_scopes.set(
+            {**_resolution_scopes.get(), id(self): _ResolutionScope()}
+        )
         try:
             yield
         finally:
-            self._resolution_depth -= 1
-            if self._resolution_depth == 0:
-                self._resolution_cache.clear()
+            _resolution_scopes.reset(token)
 
     async def set(self, name: str, val: Any) -> None:
         """Register a resource instance under a name."""
         self.resources.update({name: val})
 
     async def get(self, resource: ResourceDescriptor) -> Any:
-        if self._resolution_depth == 0:
+        if self._current_scope() is None:
             with self.resolution_scope():
                 return await self._get(resource)
         return await self._get(resource)
@@ -428,28 +454,32 @@ class ResourceManager:
 
         Works with any ResourceDescriptor implementation (_Resource or _ResourceConfig).
         """
+        scope = self._current_scope()
+        if scope is None:  # pragma: no cover - get() always opens a scope
+            scope = _ResolutionScope()
+
         # Cycle detection
-        if resource.name in self._resolving:
-            chain = " -> ".join(self._resolving) + f" -> {resource.name}"
+        if resource.name in scope.resolving:
+            chain = " -> ".join(scope.resolving) + f" -> {resource.name}"
             raise ValueError(f"Circular resource dependency detected: {chain}")
 
         # Check cache first (before marking as resolving)
         if resource.cache and resource.name in self.resources:
             return self.resources[resource.name]
-        if resource.name in self._resolution_cache:
-            return self._resolution_cache[resource.name]
+        if resource.name in scope.cache:
+            return scope.cache[resource.name]
 
         # Mark as resolving for cycle detection
-        self._resolving.append(resource.name)
+        scope.resolving.append(resource.name)
         try:
             val = await resource.resolve(self)
             if resource.cache:
                 await self.set(resource.name, val)
-            self._resolution_cache[resource.name] = val
+            scope.cache[resource.name] = val
             return val
         finally:
-            if resource.name in self._resolving:
-                self._resolving.remove(resource.name)
+            if resource.name in scope.resolving:
+                scope.resolving.remove(resource.name)
 
     def get_all(self) -> dict[str, Any]:
         """Return all materialized resources."""
